@@ -39,7 +39,7 @@ import ast
 import networkx as nx
 
 from ..callgraph import (CallGraph, StreamAnalysis, Bounds, SState, _Run, own_nodes, s_join, iv_str, INF, TOP, ZERO, EXTERNAL,
-                         is_property)
+                         is_property, PathOracle as sa_oracle)
 from ..cfg import CFG, leaves_only
 from ..model import DEX, DEX_TYPES, AXML, APK, AnalysisError, Cls, Func, norm, parent, dotted
 
@@ -179,57 +179,352 @@ class Core:
                                 and sa.key_of(l.func.value, f) == key and self.invariant(r, loop):
                             return Cert("K3", "position of `%s` changes by %s on every path head->back edge and the guard `%s` bounds it from below"
                                         % (key, iv_str(p), _u(c)))
-        # --- K3: monotone local counter -------------------------------------------------------
-        for c in self._conjuncts(loop.test):
-            cand = []
-            if isinstance(c, ast.Compare) and len(c.ops) == 1:
-                l, r, op = c.left, c.comparators[0], c.ops[0]
-                if isinstance(l, ast.Name) and isinstance(op, (ast.Lt, ast.LtE)):
-                    cand.append((l.id, +1, r, False))
-                if isinstance(r, ast.Name) and isinstance(op, (ast.Gt, ast.GtE)):
-                    cand.append((r.id, +1, l, False))
-                if isinstance(l, ast.Name) and isinstance(op, (ast.Gt, ast.GtE)):
-                    rb = self.b.eval(r, f)
-                    pos = rb[0] >= (0 if isinstance(op, ast.Gt) else 1)
-                    cand.append((l.id, -1, r, pos))
-                if isinstance(r, ast.Name) and isinstance(op, (ast.Lt, ast.LtE)):
-                    lb = self.b.eval(l, f)
-                    pos = lb[0] >= (0 if isinstance(op, ast.Lt) else 1)
-                    cand.append((r.id, -1, l, pos))
-            else:
-                nm = self._nonempty_guard(c)
-                if nm is not None:
-                    cand.append((nm, -1, None, True))
-            for name, sign, bound, ge1 in cand:
-                if bound is not None and not self.invariant(bound, loop):
-                    tried.append("counter `%s`: bound `%s` is not loop invariant" % (name, _u(bound, 50)))
-                    continue
+        # --- K2 (guard-bounded): the position only moves forward and the guard bounds it from above ------------
+        for key in sorted(back.keys()):
+            if key.startswith("#") or back.p(key)[0] < 1:
+                continue
+            for c in self._conjuncts(loop.test):
+                if isinstance(c, ast.Compare) and len(c.ops) == 1 and isinstance(c.ops[0], (ast.Lt, ast.LtE, ast.Gt, ast.GtE)):
+                    l, r = c.left, c.comparators[0]
+                    if isinstance(c.ops[0], (ast.Gt, ast.GtE)):
+                        l, r = r, l   # B > S.tell()
+                    if isinstance(l, ast.Call) and isinstance(l.func, ast.Attribute) and l.func.attr == "tell" \
+                            and sa.key_of(l.func.value, f) == key and self.invariant(r, loop):
+                        return Cert("K2", "position of `%s` advances by %s on every path head->back edge and the guard `%s` bounds it from above"
+                                    % (key, iv_str(back.p(key)), _u(c)))
+        # --- K3: monotone local counter / growing or shrinking collection against an invariant bound ----------------
+        cands = self.exit_candidates(f, loop)
+        for kind, name, sign, bound, ge1, cnode in cands:
+            if kind == "counter":
                 bk, rn, _ = sa.loop_effect(f, loop, counters={name: ge1})
                 if bk is None:
                     continue
                 d = bk.p("#" + name)
                 if sign > 0 and d[0] >= 1:
-                    return Cert("K3", "`%s` changes by %s on every path head->back edge; guard `%s` with loop-invariant bound" % (name, iv_str(d), _u(c)))
+                    return Cert("K3", "`%s` changes by %s on every path head->back edge; exit condition `%s` with loop-invariant bound" % (name, iv_str(d), _u(cnode)))
                 if sign < 0 and d[1] <= -1:
-                    return Cert("K3", "`%s` shrinks (%s) on every path head->back edge; guard `%s` bounds it from below" % (name, iv_str(d), _u(c)))
+                    return Cert("K3", "`%s` shrinks (%s) on every path head->back edge; exit condition `%s` bounds it from below" % (name, iv_str(d), _u(cnode)))
                 tried.append("counter `%s`: change per iteration %s" % (name, iv_str(d)))
-        # --- K4: drained collection -----------------------------------------------------------------
-        for c in self._conjuncts(loop.test):
-            coll = self._collection_guard(c)
-            if coll is not None:
-                bk, rn, _ = sa.loop_effect(f, loop, collections={coll})
-                if bk is not None:
-                    d = bk.p("#len:" + coll)
-                    if d[1] <= -1:
-                        return Cert("K4", "len(%s) changes by %s on every path head->back edge and the body never grows it" % (coll, iv_str(d)))
-                    tried.append("collection `%s`: length change per iteration %s" % (coll, iv_str(d)))
+            else:
+                bk, rn, _ = sa.loop_effect(f, loop, collections={name})
+                if bk is None:
+                    continue
+                d = bk.p("#len:" + name)
+                if sign < 0 and d[1] <= -1:
+                    return Cert("K4", "len(%s) changes by %s on every path head->back edge and the body never grows it" % (name, iv_str(d)))
+                if sign > 0 and d[0] >= 1:
+                    return Cert("K3", "len(%s) grows by %s on every path head->back edge; exit condition `%s` with loop-invariant bound" % (name, iv_str(d), _u(cnode)))
+                tried.append("collection `%s`: length change per iteration %s" % (name, iv_str(d)))
+                if sign < 0:
+                    fl = self._flagged_drain(loop, name)
+                    if fl:
+                        return Cert("K4", "every iteration that reaches the back edge has drained `%s`: %s" % (name, fl))
         # --- K2': event consumer -------------------------------------------------------------------
         ec = self.cert_event_consumer(f, loop)
         if ec:
             return ec
         if ec.why:
             tried.append("event consumer: " + ec.why)
-        return Cert(None, why="; ".join(tried) if tried else "no stream, counter, collection or event source makes progress", unresolved=unresolved)
+        fail = Cert(None, why="; ".join(tried) if tried else "no stream, counter, collection or event source makes progress", unresolved=unresolved)
+        # --- verdict policy: a VIOLATION needs an input-driven loop with a definite non-progress path ------------------
+        fail.input_driven = bool(run.touches)
+        fail.definite = None
+        if getattr(ec, "definite", None):
+            fail.definite = ec.definite
+            fail.input_driven = True
+        elif run.touches:
+            fail.definite = self.definite_witness(f, loop, cands)
+        return fail
+
+    # ------------------------------------------------------------------ exit conditions
+    def exit_candidates(self, f: Func, loop):
+        """state that an exit condition compares with a loop-invariant bound:
+        -> [(kind 'counter'|'collection', name/text, sign of the change that leads to the exit, bound expr, ge1, condition node)].
+        Exit conditions = conjuncts of the loop test, and the test of a top-level `if <cond>: break/return/raise`
+        of the body that no `continue` can bypass (cond negated: the loop goes on while `not cond`)."""
+        out = []
+        conds = [(c, False) for c in self._conjuncts(loop.test)]
+        for s in loop.body:
+            if isinstance(s, ast.If) and leaves_only(s.body) and not any(isinstance(n, ast.Continue) for n in own_nodes(s)):
+                t = s.test
+                if isinstance(t, ast.BoolOp) and isinstance(t.op, ast.Or):
+                    for v in t.values:      # leaves if any disjunct holds -> goes on while all are false
+                        conds.append((v, True))
+                else:
+                    conds.append((t, True))
+            if any(isinstance(n, ast.Continue) for n in [s] + list(own_nodes(s))):
+                break
+        for c, neg in conds:
+            if isinstance(c, ast.UnaryOp) and isinstance(c.op, ast.Not):
+                c, neg = c.operand, not neg
+            if isinstance(c, ast.Compare) and len(c.ops) == 1:
+                l, r, op = c.left, c.comparators[0], c.ops[0]
+                if neg:
+                    op = {ast.Lt: ast.GtE, ast.LtE: ast.Gt, ast.Gt: ast.LtE, ast.GtE: ast.Lt, ast.Eq: ast.NotEq, ast.NotEq: ast.Eq}.get(type(op), type(op))()
+                # the loop continues while  l op r
+                for a, b, o in ((l, r, op), (r, l, {ast.Lt: ast.Gt, ast.LtE: ast.GtE, ast.Gt: ast.Lt, ast.GtE: ast.LtE}.get(type(op), type(op))())):
+                    # a is the varying side, b the bound
+                    if isinstance(o, (ast.Lt, ast.LtE)):
+                        sign = +1
+                    elif isinstance(o, (ast.Gt, ast.GtE)):
+                        sign = -1
+                    else:
+                        continue
+                    if not self.invariant(b, loop):
+                        continue
+                    if isinstance(a, ast.Name):
+                        ge1 = False
+                        if sign < 0:
+                            bb = self.b.eval(b, f)
+                            ge1 = bb[0] >= (0 if isinstance(o, ast.Gt) else 1)
+                        out.append(("counter", a.id, sign, b, ge1, c))
+                    elif isinstance(a, ast.Call) and isinstance(a.func, ast.Name) and a.func.id == "len" and len(a.args) == 1 \
+                            and dotted(a.args[0]) is not None:
+                        out.append(("collection", ast.unparse(a.args[0]), sign, b, False, c))
+            else:
+                if not neg:
+                    nm = self._nonempty_guard(c)
+                    if nm is not None:
+                        out.append(("counter", nm, -1, None, True, c))
+                    coll = self._collection_guard(c)
+                    if coll is not None and isinstance(c, (ast.Name, ast.Attribute)):
+                        out.append(("collection", coll, -1, None, False, c))
+                    elif coll is not None and isinstance(c, ast.Call):
+                        out.append(("collection", coll, -1, None, False, c))
+        # de-duplicate
+        seen, res = set(), []
+        for x in out:
+            k = (x[0], x[1], x[2])
+            if k not in seen:
+                seen.add(k)
+                res.append(x)
+        return res
+
+    @staticmethod
+    def _flagged_drain(loop, coll):
+        """progress-flag idiom: the body starts with `F = False`, ends an unproductive sweep with
+        `if F is False / not F: raise|break|return`, and sets `F = True` only next to a drain of `coll`."""
+        body = loop.body
+        flag = None
+        for s in body:
+            if isinstance(s, ast.Assign) and len(s.targets) == 1 and isinstance(s.targets[0], ast.Name) \
+                    and isinstance(s.value, ast.Constant) and s.value.value is False:
+                flag = s.targets[0].id
+                break
+            if not isinstance(s, (ast.Expr, ast.Assign)):
+                break
+        if flag is None:
+            return None
+        guard = None
+        for s in body:
+            if isinstance(s, ast.If) and leaves_only(s.body):
+                t = s.test
+                ok = (isinstance(t, ast.UnaryOp) and isinstance(t.op, ast.Not) and isinstance(t.operand, ast.Name) and t.operand.id == flag) or \
+                     (isinstance(t, ast.Compare) and len(t.ops) == 1 and isinstance(t.left, ast.Name) and t.left.id == flag
+                      and isinstance(t.ops[0], (ast.Is, ast.Eq)) and isinstance(t.comparators[0], ast.Constant) and t.comparators[0].value is False)
+                if ok:
+                    guard = s
+        if guard is None:
+            return None
+        drains = ("pop", "popitem", "remove", "popleft")
+        n_true = 0
+        for n in own_nodes(loop):
+            if isinstance(n, (ast.Assign, ast.AugAssign, ast.For, ast.comprehension, ast.NamedExpr)):
+                tgts = n.targets if isinstance(n, ast.Assign) else [n.target]
+                for tg in tgts:
+                    for x in ast.walk(tg):
+                        if isinstance(x, ast.Name) and x.id == flag:
+                            if isinstance(n, ast.Assign) and isinstance(n.value, ast.Constant) and n.value.value in (True, False):
+                                if n.value.value is True:
+                                    n_true += 1
+                                    blk = None
+                                    p = parent(n)
+                                    for fld in ("body", "orelse", "finalbody"):
+                                        lst = getattr(p, fld, None)
+                                        if isinstance(lst, list) and any(y is n for y in lst):
+                                            blk = lst
+                                    if blk is None:
+                                        return None
+                                    drained = False
+                                    for st in blk:
+                                        if isinstance(st, ast.Expr) and isinstance(st.value, ast.Call) and isinstance(st.value.func, ast.Attribute) \
+                                                and st.value.func.attr in drains and ast.unparse(st.value.func.value) == coll \
+                                                and not (st.value.func.attr == "pop" and len(st.value.args) >= 2):
+                                            drained = True
+                                        if isinstance(st, ast.Delete) and any(isinstance(t2, ast.Subscript) and ast.unparse(t2.value) == coll for t2 in st.targets):
+                                            drained = True
+                                    if not drained:
+                                        return None
+                                elif n is not body[0] and not (n in body):
+                                    return None
+                            else:
+                                return None
+            if isinstance(n, ast.Call) and isinstance(n.func, ast.Attribute) and n.func.attr in _Run.GROW and ast.unparse(n.func.value) == coll:
+                return None
+            if isinstance(n, ast.Subscript) and isinstance(n.ctx, ast.Store) and ast.unparse(n.value) == coll:
+                return None
+        if n_true == 0:
+            return None
+        return "`%s = True` is only set next to a drain of the collection and `%s` leaves when it stayed False" % (flag, _u(guard.test, 40))
+
+    # ------------------------------------------------------------------ provenance of a trip count
+    def count_is_input(self, f: Func, it: ast.Call):
+        """the trip count of range(...) is positively known to come from the parsed bytes -> short reason, else None"""
+        args = it.args
+        stop = args[0] if len(args) == 1 else args[1]
+        return self._input_derived(stop, f, 0, set())
+
+    def _input_derived(self, e, f: Func, depth, seen):
+        if depth > 6 or e is None:
+            return None
+        cg = self.cg
+        if isinstance(e, ast.Subscript) and isinstance(e.value, ast.Call) and CallGraph._is_unpack_call(e.value):
+            return "unpacked from the stream (`%s`)" % _u(e.value, 40)
+        if isinstance(e, ast.Call):
+            if CallGraph._is_unpack_call(e):
+                return "unpacked from the stream (`%s`)" % _u(e, 40)
+            if isinstance(e.func, ast.Name) and e.func.id in ("abs", "int", "min", "max", "len"):
+                if e.func.id == "len":
+                    return None
+                for a in e.args:
+                    r = self._input_derived(a, f, depth + 1, seen)
+                    if r:
+                        return r
+                return None
+            ts, kind = cg.resolve_call(e, f)
+            for t in ts:
+                summ = self.sa.summary(t)
+                if summ.touches and any(k.split(".")[0] in {p.arg for p in cg._params_of(t)} for k in summ.keys):
+                    return "returned by the reader %s" % t.qualname
+            if isinstance(e.func, ast.Attribute) and ts:
+                # a getter: follow its return expressions
+                for t in ts[:3]:
+                    for n in own_nodes(t.node):
+                        if isinstance(n, ast.Return) and n.value is not None:
+                            r = self._input_derived(n.value, t, depth + 1, seen)
+                            if r:
+                                return r
+            return None
+        if isinstance(e, ast.BinOp):
+            return self._input_derived(e.left, f, depth + 1, seen) or self._input_derived(e.right, f, depth + 1, seen)
+        if isinstance(e, ast.UnaryOp):
+            return self._input_derived(e.operand, f, depth + 1, seen)
+        if isinstance(e, ast.Name):
+            key = (id(f.node), e.id)
+            if key in seen:
+                return None
+            seen.add(key)
+            if any(p.arg == e.id for p in cg._params_of(f)):
+                # what do the call sites pass?
+                name = f.cls.name if (f.name == "__init__" and f.cls is not None) else f.name
+                ps = [p.arg for p in cg._params_of(f)]
+                idx = ps.index(e.id)
+                for g, call in cg.callsites_of(name)[:12]:
+                    off = 1 if (cg.is_method(f) and (f.name == "__init__" or isinstance(call.func, ast.Attribute))) else 0
+                    arg = None
+                    if 0 <= idx - off < len(call.args):
+                        arg = call.args[idx - off]
+                    for kw in call.keywords:
+                        if kw.arg == e.id:
+                            arg = kw.value
+                    if arg is not None:
+                        r = self._input_derived(arg, g, depth + 1, seen)
+                        if r:
+                            return r
+                return None
+            dd = cg.dominating_def(e, f) if parent(e) is not None else None
+            if dd is not None:
+                return self._input_derived(dd, f, depth + 1, seen)
+            for rhs in cg._assignments_to_name(f, e.id):
+                if isinstance(rhs, ast.AST):
+                    r = self._input_derived(rhs, f, depth + 1, seen)
+                    if r:
+                        return r
+            # tuple target of an unpack
+            for n in own_nodes(f.node):
+                if isinstance(n, ast.Assign) and isinstance(n.value, ast.Call) and CallGraph._is_unpack_call(n.value):
+                    for t in n.targets:
+                        if isinstance(t, (ast.Tuple, ast.List)) and any(isinstance(x, ast.Name) and x.id == e.id for x in t.elts):
+                            return "unpacked from the stream (`%s`)" % _u(n.value, 40)
+            return None
+        if isinstance(e, ast.Attribute):
+            t = cg.type_of(e.value, f)
+            if isinstance(t, Cls):
+                key = (id(t), e.attr)
+                if key in seen:
+                    return None
+                seen.add(key)
+                g = cg.getter(t, e.attr)
+                if g is not None:
+                    for n in own_nodes(g.node):
+                        if isinstance(n, ast.Return) and n.value is not None:
+                            r = self._input_derived(n.value, g, depth + 1, seen)
+                            if r:
+                                return r
+                    return None
+                for m, stmt, tgt, val, slot in self.b._stores(t, e.attr):
+                    if slot is not None and isinstance(val, ast.Call) and CallGraph._is_unpack_call(val):
+                        return "unpacked from the stream (`%s`)" % _u(val, 40)
+                    if val is not None and slot is None:
+                        r = self._input_derived(val, m, depth + 1, seen)
+                        if r:
+                            return r
+            return None
+        return None
+
+    # ------------------------------------------------------------------ definite non-progress
+    MAX_PATHS = 256
+
+    def definite_witness(self, f: Func, loop, cands, kind="while", comp=None, gi=0):
+        """enumerate the syntactic paths of ONE iteration (ifs outside inner loops are followed one branch at a
+        time) and return the description of a path on which (1) every fact used is exact knowledge (no unknown seek
+        target, unresolved call, callee of unknown effect ...), (2) no touched stream ends ahead of where it started
+        (or it is put at a loop-invariant position), and (3) no state that an exit condition compares with an
+        invariant bound moves towards that bound.  None if no such path exists / the enumeration is too large."""
+        sa = self.sa
+        oracle = sa_oracle()
+        counters = {c[1]: c[4] for c in cands if c[0] == "counter"}
+        colls = {c[1] for c in cands if c[0] == "collection"}
+        n = 0
+        while True:
+            n += 1
+            if n > self.MAX_PATHS:
+                return None
+            if kind == "comp":
+                back, run = sa.comp_effect(f, comp, gi, oracle=oracle)
+            else:
+                back, run, _ = sa.loop_effect(f, loop, counters=counters, collections=colls, oracle=oracle,
+                                              inv_test=(lambda e: self.invariant(e, loop)))
+            if back is not None and not run.loose:
+                ok = True
+                facts = []
+                for key in sorted(back.keys()):
+                    if key.startswith("#"):
+                        continue
+                    p = back.p(key)
+                    if key in back.inv:
+                        facts.append("`%s` is put back at the loop-invariant position `%s`" % (key, back.inv[key]))
+                    elif p[0] > -INF and p[0] <= 0:
+                        facts.append("`%s` advances by %s (0 is possible: nothing forces a byte to be consumed)" % (key, iv_str(p)))
+                    else:
+                        ok = False
+                for knd, name, sign, bound, ge1, cnode in cands:
+                    d = back.p(("#" if knd == "counter" else "#len:") + name)
+                    if sign > 0:
+                        if not (d[0] > -INF and d[0] <= 0):
+                            ok = False
+                    else:
+                        if not (d[1] < INF and d[1] >= 0):
+                            ok = False
+                    if ok and d != ZERO:
+                        facts.append("`%s` changes by %s" % (name, iv_str(d)))
+                if ok:
+                    if not facts:
+                        facts.append("no stream is read and no exit-relevant state changes")
+                    return "path #%d of the body (branches %s): %s" % (
+                        n, "".join("T" if d else "F" for d in oracle.decisions[: oracle.i]) or "-", "; ".join(facts))
+            if not oracle.advance():
+                return None
 
     @staticmethod
     def _nonempty_guard(c):
@@ -343,9 +638,28 @@ class Core:
                 return r
             if r.unresolved:
                 return r
-            whys.setdefault(getattr(r, "stage", 1), r.why)
-        # prefer the explanation of a candidate whose stepper side was fine (the consumer is what is broken)
-        return Cert(None, why=whys.get(2) or whys.get(1) or "")
+            whys.setdefault(getattr(r, "stage", 1), (r.why, getattr(r, "definite", None)))
+        # prefer the explanation of a candidate whose stepper side was fine (the consumer is what is broken).
+        # With several candidate terminal constants a failure is definite only if it is definite for the
+        # candidate the consumer actually leaves on -- approximated by: stage 2, or a single candidate.
+        pick = whys.get(2) or whys.get(1) or ("", None)
+        c = Cert(None, why=pick[0])
+        c.definite = pick[1] if (2 in whys or len(const_assigns) == 1 or self._consumer_leaves_on(loop, var, const_assigns, f)) else None
+        return c
+
+    def _consumer_leaves_on(self, loop, var, const_assigns, f):
+        """the consumer compares the event with exactly one of the candidate constants in a leaving `if`"""
+        hits = set()
+        for n in own_nodes(loop):
+            if isinstance(n, ast.If) and (leaves_only(n.body) or any(isinstance(x, (ast.Break, ast.Raise, ast.Return)) for x in n.body)):
+                for cmp_ in ast.walk(n.test):
+                    if isinstance(cmp_, ast.Compare) and len(cmp_.ops) == 1 and isinstance(cmp_.ops[0], ast.Eq):
+                        for a, b in ((cmp_.left, cmp_.comparators[0]), (cmp_.comparators[0], cmp_.left)):
+                            if isinstance(a, ast.Name) and a.id == var:
+                                v = self.b.fold(b, f)
+                                if isinstance(v, int) and int(v) in const_assigns:
+                                    hits.add(int(v))
+        return len(hits) >= 1
 
     def _event_consumer_for(self, f, loop, s_next, var, call, x, t, M, msn, ev, flag, terminal, term_assigns, ev_assigns, cfg):
         sa = self.sa
@@ -388,14 +702,33 @@ class Core:
                 if key.startswith(msn + ".") and ex.p(key)[0] >= 1 and ex.a(key) >= 1:
                     prog = (key, ex.p(key), ex.a(key))
             if prog is None:
-                return Cert(None, why="%s has a normal path that neither advances the stream, nor sets the terminal event %d, nor clears `%s` (%s)"
-                            % (M.qualname, terminal, flag, ex), unresolved=run.unresolved)
+                c = Cert(None, why="%s has a normal path that neither advances the stream, nor sets the terminal event %d, nor clears `%s` (%s)"
+                         % (M.qualname, terminal, flag, ex), unresolved=run.unresolved)
+                # definite only if one syntactic path, followed with exact knowledge, returns without any of the three
+                oracle = sa_oracle()
+                for _ in range(self.MAX_PATHS):
+                    r2 = _Run(sa, M)
+                    r2.cut = cut
+                    r2.assume_true = set(run.assume_true)
+                    r2.oracle = oracle
+                    o2 = r2.block(M.node.body, SState())
+                    e2 = s_join(o2.fall, o2.ret)
+                    if e2 is not None and not r2.loose:
+                        keys = [k for k in e2.keys() if k.startswith(msn + ".")]
+                        if all(e2.p(k)[0] > -INF and e2.p(k)[0] <= 0 for k in keys):
+                            c.definite = "%s returns on path %s without consuming input (%s), without the terminal event %d and with `%s` still true" % (
+                                M.qualname, "".join("T" if d else "F" for d in oracle.decisions[: oracle.i]) or "-", e2, terminal, flag)
+                            break
+                    if not oracle.advance():
+                        break
+                return c
         # 6. the consumer leaves on the terminal event on every path (path-sensitive on tested constants)
         bad = self._terminal_reaches_back_edge(f, loop, s_next, var, terminal)
         if bad is not None:
             c = Cert(None, why="a path from `%s` reaches the back edge while the event may still be the terminal event %d (via `%s`); "
                      "the stepper makes no progress once it is set and `%s` stays true" % (_u(s_next, 40), terminal, _u(bad, 50), _u(loop.test, 40)))
             c.stage = 2
+            c.definite = c.why
             return c
         # 7. nothing else in the body moves X's stream
         bk, rn, _ = sa.loop_effect(f, loop)
@@ -715,10 +1048,13 @@ def _label(f, kind, node, seen):
 
 def check_function(core: Core, sink, f: Func, in_scope=True, seen=None, roots_path=None):
     """certify every while loop and every range-counted loop/comprehension of f.
-    `sink` needs .check(rule, instance, ok, func, construct, message, node=, detail=), .ob(...), .count(name)."""
+    `sink` needs .check(rule, instance, ok, func, construct, message, node=, detail=), .ob(...), .count(name).
+    Verdict policy: a failed certificate search is reported as a finding only when the loop is input driven and a
+    definite non-progress path was established; every other failure is returned as *undecided*
+    -> [(instance, reason)] (the caller turns these into exit 2)."""
     seen = seen if seen is not None else {}
     whiles, fors, comps = loops_of(f.node)
-    pending_unresolved = []
+    undecided = []
     for w in whiles:
         lab = _label(f, "while", w, seen)
         sink.count("while_loops_in_scope" if in_scope else "while_loops_out_of_scope")
@@ -730,38 +1066,43 @@ def check_function(core: Core, sink, f: Func, in_scope=True, seen=None, roots_pa
         elif not in_scope:
             sink.ob("while/out-of-scope", inst, True, "not reachable from a parser entry point; no certificate derived (%s)" % cert.why[:200])
             sink.count("uncertified_out_of_scope")
+        elif getattr(cert, "definite", None) and getattr(cert, "input_driven", False) and not cert.unresolved:
+            sink.check("while/certificate", inst, False, f, lab,
+                       "input-driven loop with a definite non-progress path: %s  [no termination certificate (K0-K5/K2'): %s]"
+                       % (cert.definite, cert.why), node=w, witness=dict(path=cert.definite, tried=cert.why))
         else:
             if cert.unresolved:
-                pending_unresolved.append((inst, cert))
-                continue
-            sink.check("while/certificate", inst, False, f, lab,
-                       "no termination certificate (K0-K5/K2') for this loop: %s" % cert.why, node=w,
-                       witness=dict(tried=cert.why))
+                why = "a call that may consume the stream could not be resolved: %s" % "; ".join(_u(u, 60) for u in cert.unresolved[:3])
+            elif not getattr(cert, "input_driven", False):
+                why = "no certificate found and the loop does not read input (value-driven loop): %s" % cert.why
+            else:
+                why = "no certificate found, but no definite non-progress path either (imprecise facts): %s" % cert.why
+            sink.count("undecided")
+            undecided.append((inst, why))
     if in_scope:
         for fo in fors:
             it = fo.iter
             if isinstance(it, ast.Call) and isinstance(it.func, ast.Name) and it.func.id in ("range", "xrange"):
                 lab = _label(f, "for", fo, seen)
-                _check_range(core, sink, f, fo, it, lab, lambda: core.k1_for(f, fo), pending_unresolved)
+                _check_range(core, sink, f, fo, it, lab, lambda: core.k1_for(f, fo), undecided,
+                             lambda: core.definite_witness(f, fo, [], kind="for"))
             else:
-                _check_collection_for(core, sink, f, fo, seen)
+                _check_collection_for(core, sink, f, fo, seen, undecided)
         for c in comps:
             for gi, g in enumerate(c.generators):
                 it = g.iter
                 if isinstance(it, ast.Call) and isinstance(it.func, ast.Name) and it.func.id in ("range", "xrange"):
                     lab = _label(f, "[%s for %s in %s]" % (_u(CallGraphElt(c), 40), _u(g.target, 20), _u(it, 50)), c, seen)
-                    _check_range(core, sink, f, c, it, lab, lambda c=c, gi=gi: core.k1_comp(f, c, gi), pending_unresolved)
-    if pending_unresolved:
-        inst, cert = pending_unresolved[0]
-        raise AnalysisError("%s: cannot decide termination -- a call that receives the stream could not be resolved: %s"
-                            % (inst, "; ".join(_u(u, 60) for u in cert.unresolved[:3])))
+                    _check_range(core, sink, f, c, it, lab, lambda c=c, gi=gi: core.k1_comp(f, c, gi), undecided,
+                                 lambda c=c, gi=gi: core.definite_witness(f, None, [], kind="comp", comp=c, gi=gi))
+    return undecided
 
 
 def CallGraphElt(c):
     return c.key if isinstance(c, ast.DictComp) else c.elt
 
 
-def _check_range(core, sink, f, node, it, lab, k1, pending):
+def _check_range(core, sink, f, node, it, lab, k1, undecided, witness):
     sink.count("range_loops")
     cls, detail = core.classify_range(f, it)
     inst = "%s: %s" % (f.qualname, lab)
@@ -773,16 +1114,26 @@ def _check_range(core, sink, f, node, it, lab, k1, pending):
     cert = k1()
     if cert:
         sink.check("for/input-counted", inst, True, f, lab, "", node=node, detail="input-counted (%s); %s -- %s" % (detail, cert.kind, cert.detail))
-    elif cert.unresolved:
-        pending.append((inst, cert))
-    else:
+        return
+    if cert.unresolved:
+        sink.count("undecided")
+        undecided.append((inst, "a call that may consume the stream could not be resolved: %s" % "; ".join(_u(u, 60) for u in cert.unresolved[:3])))
+        return
+    prov = core.count_is_input(f, it)
+    w = witness() if prov else None
+    if prov and w:
         sink.check("for/input-counted", inst, False, f, lab,
-                   "trip count is input controlled (%s) but an iteration need not consume a checked byte: %s" % (detail, cert.why),
-                   node=node, witness=dict(count=detail, tried=cert.why))
+                   "trip count is read from the input (%s; %s) and an iteration can complete without consuming a checked byte: %s  [%s]"
+                   % (detail, prov, w, cert.why), node=node, witness=dict(count=detail, provenance=prov, path=w, tried=cert.why))
+    else:
+        sink.count("undecided")
+        undecided.append((inst, "trip count not bounded and K1 not established, but %s: %s" % (
+            "the count is not known to come from the input" if not prov else "no definite non-consuming path was found", cert.why)))
 
 
-def _check_collection_for(core, sink, f, fo, seen):
-    """`for x in C`: the body must not grow C (finite-collection certificate K4 for `for` loops)"""
+def _check_collection_for(core, sink, f, fo, seen, undecided):
+    """`for x in C`: the body must not grow C (finite-collection certificate K4 for `for` loops);
+    a growing work list is not input driven by itself -> undecided, never a finding"""
     it = fo.iter
     if not isinstance(it, (ast.Name, ast.Attribute)) or dotted(it) is None:
         return
@@ -794,9 +1145,12 @@ def _check_collection_for(core, sink, f, fo, seen):
             grows = n
     sink.count("collection_for_loops")
     lab = _label(f, "for", fo, seen)
-    sink.check("for/collection-not-grown", "%s: %s" % (f.qualname, lab), grows is None, f, lab,
-               "the loop appends to the list it iterates over (`%s`): it need not terminate" % (_u(grows) if grows is not None else ""),
-               node=fo, detail="K4: iterates an in-memory collection the body does not grow")
+    if grows is None:
+        sink.check("for/collection-not-grown", "%s: %s" % (f.qualname, lab), True, f, lab, "", node=fo,
+                   detail="K4: iterates an in-memory collection the body does not grow")
+    else:
+        sink.count("undecided")
+        undecided.append(("%s: %s" % (f.qualname, lab), "the loop appends to the list it iterates over (`%s`): work-list loop, not decided" % _u(grows)))
 
 
 # =============================================================================
